@@ -37,3 +37,38 @@ HARNESS(h_c19_numbering) {
         s->iteration_++;
     }
 }
+
+// C19 (statistics cadence): the real solver (constructor + run()) on one static cell. din: [dt, sampling_period, duration]
+// irsym: the statistics and mesh writers are replaced by recording stubs (events); natively the in-memory statistics writer is real and its
+// rows are parsed here. iout: [final iteration count, then natively: the iteration number of every statistics row]
+#include <sstream>
+HARNESS(h_c19_stats) {
+    const double* D = io->din;
+    global_simulation_parameters sp;
+    sp.time_step_ = D[0]; sp.sampling_period_ = D[1]; sp.simulation_duration_ = D[2]; sp.damping_coefficient_ = 1.; sp.min_edge_len_ = 0.3;
+    sp.contact_cutoff_adhesion_ = 0.1; sp.contact_cutoff_repulsion_ = 0.1; sp.enable_edge_swap_operation_ = false;
+#ifdef IRSYM_NATIVE
+    sp.output_folder_path_ = "/tmp/irsym_c19_stats_out";
+#else
+    sp.output_folder_path_ = "out";
+#endif
+    auto ct = std::make_shared<cell_type_parameters>();
+    ct->global_type_id_ = 4; ct->mass_density_ = 1.; ct->bulk_modulus_ = 1.; ct->max_pressure_ = 1e9; ct->avg_division_vol_ = 1e9; ct->min_vol_ = 0.;
+    face_type_parameters ft; ct->add_face_type(ft);
+    std::vector<double> pos = {0, 0, 0, 1, 0, 0, 0, 1, 0, 0, 0, 1};
+    std::vector<unsigned> ids = {0, 2, 1, 0, 1, 3, 0, 3, 2, 1, 2, 3};
+    cell_ptr c = std::make_shared<static_cell>(pos, ids, 0u, ct);
+    c->initialize_cell_properties(true);
+    std::vector<cell_ptr> cells = {c};
+    solver s(sp, cells, 1, true, false);
+    s.run();
+    OI(s.iteration_);
+    OD(s.time_integrator_ptr_->get_simulation_time());
+#ifdef IRSYM_NATIVE
+    std::istringstream is(s.get_simulation_statistics());
+    for (std::string line; std::getline(is, line);) {
+        if (line.empty() || line[0] < '0' || line[0] > '9') continue;
+        OI(atol(line.c_str()));
+    }
+#endif
+}
